@@ -38,9 +38,9 @@ def run(ctx):
             for fn in glob.glob(job["tsan_log"] + ".*"):
                 os.unlink(fn)
     cov = ctx.coverage
-    cov["evaluations"] = tot.get("tcp_sessions", 0) + tot.get("udp_datagrams", 0) + tot.get("peer_gone_cases", 0)
+    cov["evaluations"] = tot.get("tcp_sessions", 0) + tot.get("udp_datagrams", 0) + tot.get("peer_gone_cases", 0) + tot.get("refused_connects", 0)
     cov["distinct_nontrivial"] = tot.get("tcp_sessions", 0) + tot.get("udp_sessions", 0)
-    cov["rule"] = ("evaluations = TCP sessions + UDP datagrams + peer-gone cases. distinct_nontrivial = sessions, each a distinct PRNG draw of (family, blocking/non-blocking, total size, chunk size classes 7 B..1 MiB, "
+    cov["rule"] = ("evaluations = TCP sessions + UDP datagrams + peer-gone cases + refused blocking connects (must fail with the refusal, never TRUE, never would-block/in-progress/EINTR). distinct_nontrivial = sessions, each a distinct PRNG draw of (family, blocking/non-blocking, total size, chunk size classes 7 B..1 MiB, "
                    "4 KiB socket buffers, slow receiver, start order, injection density 0-50% or every k-th call, injected kinds). The receiver compares the stream with the keyed generator on the fly by the byte counts the API "
                    "reported; datagrams must be exactly the sent datagram cut to the buffer, with the sender's address; injections by libc call and kind [EINTR, EAGAIN, short, spurious-ready] are in coverage.injected.")
     cov["totals"] = tot
